@@ -12,7 +12,7 @@ EXTENDS Integers, Sequences, FiniteSets, TLC, Json
 CONSTANTS NThreads, MaxLen, Sticky, Tier
 \* call menu (ids are interpreted by the harness): parameter sets sharing bit length or capacity, proofs with a fixed
 \* RNG stream, verifications, generator accessors
-Calls == 0..17
+Calls == 0..19
 Class(c) == IF c \in {0, 1} THEN "n8" ELSE IF c = 2 THEN "n16" ELSE IF c = 3 THEN "n64" ELSE "other"   \* calls 0 and 1 share the bit length
 VARIABLES hist, cache, res
 vars == <<hist, cache, res>>
